@@ -307,7 +307,10 @@ def evaluate(ops, config):
                 fail(clause, "export_text(styles=True): " + diff[0], diff[1], diff[2])
         if clear_text is not None:
             evaluated.append("c15.export_clear_empties")
-            if clear_text == "text":
+            if clear_text == "text" and len(t1) % 2 == 1:
+                # every other time the clearing export is the *styled* one (same clear semantics)
+                console.export_text(clear=True, styles=True)
+            elif clear_text == "text":
                 last = console.export_text(clear=True, styles=False)
                 if last != t1:
                     fail("c15.export_noclear_unchanged", "clearing export_text differs from the one before", t1, last)
